@@ -48,7 +48,7 @@ def inst(name, expr, kind, nmax, props, family, meta=None, memsafe=True, unwind_
         elif nmax >= 8:
             mem = 10 if dbl else 5
         elif nmax >= 4 and dbl:
-            mem = 6
+            mem = 4        # measured: up to 3.5 GB resident
     INSTANCES.append(dict(
         name=name, expr=expr, kind=kind, nmax=nmax, props=props, family=family,
         meta=meta or {}, memsafe=memsafe, unwind_min=unwind_min, cost=cost, mem=mem,
@@ -152,7 +152,12 @@ def _split():
             for op, grow in (("push", 1), ("change_priority", 0), ("remove", 0)):
                 for k in range(0, n + 1):
                     t = QUICK if n in sizes_q else THOROUGH
-                    if n == 6 and k not in ((1, 3, 5, 6) if op != "remove" else (1, 3, 4)):
+                    # the quick tier has to fit the time allowed for a check that runs on every
+                    # change: a selection of positions (root, a max-level node, a leaf / the new slot)
+                    sel_q = {3: {"push": (2, 3), "change_priority": (0, 2), "remove": (0, 2)},
+                             4: {"push": (1, 3, 4), "change_priority": (0, 1, 3), "remove": (0, 1, 3)},
+                             6: {"push": (5, 6), "change_priority": (1, 5), "remove": (1, 4)}}
+                    if n in sel_q and k not in sel_q[n][op]:
                         t = THOROUGH
                     step(op, kind, n, "inv", "or", {op_: t}, tables=f"idk{k}", grow=grow,
                          cost=(40 if kind == "dq" else 10) * n)
@@ -161,14 +166,17 @@ def _split():
     # Deep sizes. The element that replaces the extracted one comes from the LAST slot, i.e. from
     # one particular subtree; the second swap of a trickle-down round (with the grandchild's
     # parent) can only happen when that parent lies outside this subtree. For pop_min that is
-    # possible from n = 12 on (n = 17 here: 3 min); for pop_max only from n = 20 on (last slot 19
+    # possible from n = 13 on (last slot 12 under position 2, grandchildren 3, 4 under position 1 with
+    # children 7..10); for pop_max only from n = 20 on (last slot 19
     # under position 4, largest grandchild under position 3 with children at 15, 16): 6 min, 9 GB.
-    for n, t in ((6, QUICK), (7, QUICK), (8, THOROUGH), (9, THOROUGH), (15, THOROUGH), (16, THOROUGH), (17, THOROUGH), (18, THOROUGH), (20, THOROUGH)):
+    for n, t in ((6, QUICK), (7, QUICK), (8, THOROUGH), (9, THOROUGH), (13, THOROUGH), (15, THOROUGH), (16, THOROUGH), (17, THOROUGH), (18, THOROUGH), (20, THOROUGH)):
         for op in ("pop_lo", "pop_hi", "pop_lo_if"):
-            if n >= 15 and op == "pop_lo_if":
+            if n >= 13 and op == "pop_lo_if":
+                continue
+            if n == 13 and op != "pop_lo":
                 continue
             tt = t
-            if (n, op) in ((17, "pop_lo"), (20, "pop_hi")):
+            if (n, op) in ((13, "pop_lo"), (20, "pop_hi")):
                 tt = QUICK
             # sorted consumption is a chain of these extractions (C06)
             step(op, "dq", n, "inv", "or", {"C02": tt, "C08": tt if op == "pop_lo_if" else None,
@@ -192,7 +200,7 @@ def _split():
     # change_priority_by shares the sift path of change_priority but not its entry point
     for n, keys in ((4, (0, 1, 3)), (6, (1, 3))):
         for k in keys:
-            step("change_priority_by", "dq", n, "inv", "or", {"C02": QUICK}, tables=f"idk{k}", cost=40 * n)
+            step("change_priority_by", "dq", n, "inv", "or", {"C02": QUICK if k == 1 else THOROUGH}, tables=f"idk{k}", cost=40 * n)
     # C11 / C12 on the min-max heap at n = 4: every position, all groups
     for n, t in ((4, QUICK), (6, THOROUGH)):
         for op in ("push_increase", "push_decrease"):
@@ -377,8 +385,8 @@ def _iters():
                 for back in ((False, True) if kind == "dq" else (False,)):
                     inst(f"sorted_{kind}_skip_n{n}_j{j}{'_back' if back else ''}",
                          f"iters::sorted_skip::<{ty}, {n}, {j}>({B[back]})", kind, n,
-                         {"C13": (tn if j in (n - 1, n) and not (back and n >= 2) else THOROUGH),
-                          "C06": (tn if j == n and not (back and n >= 2) else THOROUGH)}, "ITER",
+                         {"C13": (tn if j in (n - 1, n) and not (kind == "dq" and n >= 2 and (back or j == n)) else THOROUGH),
+                          "C06": (tn if j == n and not (kind == "dq" and n >= 2) else THOROUGH)}, "ITER",
                          meta=dict(iter="into_sorted_iter", kind=kind, n=n, call=f"nth{'_back' if back else ''}({j}) then next()"),
                          covers_required=False, cost=n * n * (25 if kind == "dq" else 5))
         # C06: n chained pops; the min-max heap is the expensive half
@@ -399,7 +407,7 @@ def _iters():
 
 
     # the first two / three steps of a sorted consumption, symbolic ends, identity tables
-    for kind, specs in (("dq", ((4, 2, QUICK), (6, 2, QUICK), (7, 2, QUICK), (7, 3, THOROUGH), (8, 2, THOROUGH), (9, 2, THOROUGH))),
+    for kind, specs in (("dq", ((4, 2, THOROUGH), (6, 2, QUICK), (7, 2, QUICK), (7, 3, THOROUGH), (8, 2, THOROUGH), (9, 2, THOROUGH))),
                         ("pq", ((5, 2, QUICK), (8, 2, QUICK), (9, 3, THOROUGH)))):
         ty = KINDS[kind]["ty"]
         for n, k, t in specs:
@@ -502,19 +510,19 @@ def _bulk():
                      f"bulk::extend::<{ty}, 8, 2, {seq_of(keys)}>(Pre::Inv, Tables::Identity, step::ALL, {HINTS[hname]})",
                      kind, 10, {"C07": t}, "STEP",
                      meta=dict(op="extend", kind=kind, n=8, m=2, keys=keys, hint=hname, strategy="rebuild", tables="identity"),
-                     covers_required=False, cost=900 if dq else 200, mem=10)
+                     covers_required=False, cost=900 if dq else 200, mem=7 if dq else 5)
                 if hname == "far" and tag == "xa":
                     inst(f"extend_{kind}_n8_m2_{tag}_{hname}_rebuild_or",
                          f"bulk::extend::<{ty}, 8, 2, {seq_of(keys)}>(Pre::Inv, Tables::Identity, step::ORDER, {HINTS[hname]})",
                          kind, 10, {op_: QUICK if not dq else THOROUGH}, "STEP",
                          meta=dict(op="extend", kind=kind, n=8, m=2, keys=keys, hint=hname, strategy="rebuild", tables="identity", group="or"),
-                         covers_required=False, cost=900 if dq else 200, mem=10)
+                         covers_required=False, cost=900 if dq else 200, mem=7 if dq else 5)
             t = QUICK if (not dq and tag in ("xa", "xx")) else THOROUGH
             inst(f"extend_{kind}_n8_m2_{tag}_twin",
                  f"bulk::extend_twin::<{ty}, 8, 2, {seq_of(keys)}>(Tables::Identity, bulk::H_NONE, bulk::H_FAR)",
                  kind, 10, {"C07": t}, "STEP",
                  meta=dict(op="extend twice, hint none vs far", kind=kind, n=8, m=2, keys=keys, tables="identity"),
-                 covers_required=False, cost=1000 if dq else 300, mem=10)
+                 covers_required=False, cost=1000 if dq else 300, mem=7 if dq else 5)
         # ---- FromIterator / From<Vec>
         for l in range(0, 5):
             seqs = {0: [("e", [])], 1: [("a", [1])], 2: [("ab", [1, 2]), ("aa", [1, 1])],
@@ -834,7 +842,17 @@ def _crash():
         for tag, keys in (("ab", [8, 9]), ("xa", [3, 8])):
             if dq and tag == "xa":
                 continue    # measured: runs out of memory (40 GB) after 5 min of symbolic execution
-            t = QUICK if (tag == "ab" and not dq) else THOROUGH
+            # quick: the same with all priorities one concrete value -- the bookkeeping around the
+            # feed's callbacks does not depend on them and the final rebuild then costs nothing
+            # (the rebuild's own comparisons are crash points of the iter_mut-drop instances)
+            if tag == "ab" and not dq:      # (min-max heap: out of memory even so)
+                inst(f"crash_{kind}_extend_n8_m2_{tag}_far_rebuild_flat",
+                     f"{{ gen::set_flat_priorities(); crash::crash_extend::<{ty}, 8, 2, {seq_of(keys)}>(Tables::Identity, bulk::H_FAR) }}", kind, 10,
+                     {"C10": QUICK}, "CRASH", meta=dict(op="extend (rebuild strategy)", kind=kind, n=8, m=2, keys=keys, pre="cs",
+                                                         tables="identity", priorities="all equal (concrete)",
+                                                         callbacks="feeding iterator, Ord, Eq, Hash"),
+                     covers_required=False, cost=60, mem=4)
+            t = THOROUGH
             inst(f"crash_{kind}_extend_n8_m2_{tag}_far_rebuild",
                  f"crash::crash_extend::<{ty}, 8, 2, {seq_of(keys)}>(Tables::Identity, bulk::H_FAR)", kind, 10,
                  {"C10": t}, "CRASH", meta=dict(op="extend (rebuild strategy)", kind=kind, n=8, m=2, keys=keys, pre="cs",
@@ -881,7 +899,7 @@ def _crash():
             heavy = dq and op in ("push", "change", "change_by", "remove", "pop_hi_if", "push_inc")
             for n, d in ((1, 1), (2, 1), (3, 1), (3, 2), (4, 1)):
                 t = tq(n, 2 if heavy else 3, 3 if dq else 4)
-                if d == 2 or n == 1:
+                if d == 2 or n == 1 or (heavy and op not in ("push", "change")):
                     t = THOROUGH if t else None
                 if t is None:
                     continue
